@@ -562,6 +562,7 @@ func verifExclusiveSys(p uint16, s uint8, which uint8) int {
 //@ ensures [P:C10] err == io.EOF ==> rd.sfault == nil
 //@ ensures [P:C10] old(rd.sfault) != nil && !rcm1(status) ==> err == old(rd.sfault)
 //@ ensures [H] err != nil ==> len(m) == 0
+//@ ensures [H] old(rd.sgreedy) && old(rd.sfault) == nil ==> rd.sfault == nil
 //@ ensures [H] err == nil || err == io.EOF || int(err) > 1000
 //@ ensures [H] old(rd.spos) <= rd.spos && rd.spos <= rd.sn && rd.spos <= old(rd.spos) + 1
 //@ ensures [H] rd.sfault == nil ==> old(rd.sfault) == nil
